@@ -387,6 +387,43 @@ pub fn record(args: &[String]) -> i32 {
 }
 
 
+/// The trees of the corpus programs as the REAL parser builds them, in the model's schema (canonical names, physical lines): input of
+/// MC_Lint's corpus kinds, which apply Lint.tla and Visitor.tla to them.
+pub fn record_corpus_trees(args: &[String]) -> i32 {
+    let mut dir = None;
+    let mut out = None;
+    let mut i = 0;
+    while i < args.len() {
+        match args[i].as_str() {
+            "--dir" => { dir = Some(args[i + 1].clone()); i += 1 }
+            "--out" => { out = Some(args[i + 1].clone()); i += 1 }
+            a => { eprintln!("unknown option {}", a); return 2 }
+        }
+        i += 1;
+    }
+    let mut f = std::fs::File::create(out.expect("--out required")).expect("cannot create output file");
+    let mut files: Vec<_> = std::fs::read_dir(dir.expect("--dir required")).expect("corpus directory").filter_map(|e| e.ok()).map(|e| e.path())
+        .filter(|p| p.extension().map_or(false, |x| x == "rock")).collect();
+    files.sort();
+    let in_alphabet = |s: &str| s.chars().all(|c| (c.is_ascii() && c != '~' && (c == '\n' || c == '\t' || !c.is_ascii_control())) || c == '\u{e9}');
+    let mut n = 0;
+    for path in files {
+        let stem = path.file_stem().unwrap().to_string_lossy().to_string();
+        let text = std::fs::read_to_string(&path).unwrap_or_default();
+        if !in_alphabet(&text) {
+            continue;
+        }
+        if let Ok(Ok(program)) = std::panic::catch_unwind(|| rrss::frontend::parser::parse(&text)) {
+            let back = std::collections::HashMap::new();
+            let prog = crate::astout::Out { back: &back, corpus: true }.program(&program);
+            writeln!(f, "{}", json!({"file": stem, "prog": prog})).unwrap();
+            n += 1;
+        }
+    }
+    eprintln!("{} trees written", n);
+    0
+}
+
 /// Recorder for the program corpus (`/verif/corpus/*.rock` with `.in`): the programs of the repository's own integration tests, parsed
 /// by the real parser, run on the real interpreter with the snapshot hook, one trace line per program for InterpTrace.
 /// A text outside the model's alphabet (non-ASCII other than U+00E9, or the place-holder `~` itself) or one the parser rejects is skipped.
